@@ -130,7 +130,7 @@ class wrapper(dictattr):
         if type(function) == type(self):
             kw = function._kwargs
             kw.update(kwargs)
-            function = function.function
+            function = copy(function.function)
         else:
             kw = kwargs
         f = function
@@ -140,6 +140,8 @@ class wrapper(dictattr):
                 kw.update(kwargs)
                 f[_function] = f.function.function
             else:
+                if isinstance(f.function, wrapper):
+                    f[_function] = copy(f.function) ## we edit the chain below us, so we walk down copies rather than the caller's own wrappers
                 f = f.function
 
         super(wrapper, self).__init__(*args, **kw)
